@@ -376,14 +376,23 @@ func runCascades(r *ev.Run, rng *rand.Rand, mine map[string]bool, prop string) {
 		}
 	}
 	nFree := pick(tier, 80, 600)
+	hungFree := 0
 	for k := 0; k < nFree; k++ {
+		if hungFree >= 4 {
+			r.Logf("four free runs ended with waiting callers: the remaining free runs are not made (each costs its whole time bound)")
+			break
+		}
 		workers := 1 + rng.Intn(16)
 		prog := randomCascade(rng, fmt.Sprintf("free%d", k), 2+rng.Intn(2), 3, 3, 4, workers)
 		for i := range prog.Rules {
 			prog.Rules[i].HP = workers == 1 // samples are only ordered with a single worker
 		}
 		prog.ErrObs = k%3 == 0
-		if !add(prog, "free", runCascadeFree(prog)) {
+		fres := runCascadeFree(prog)
+		if fres.Hung {
+			hungFree++
+		}
+		if !add(prog, "free", fres) {
 			return
 		}
 	}
